@@ -126,6 +126,14 @@ namespace TrRouting
 
         cNode::Reader capnpT = capnpTMessage.getRoot<cNode>();
         const unsigned int transferableNodesCount {capnpT.getTransferableNodesUuids().size()};
+        // every transferable node needs its travel time and its distance: the three lists are read by the same index
+        if (capnpT.getTransferableNodesTravelTimes().size() < transferableNodesCount ||
+            capnpT.getTransferableNodesDistances().size() < transferableNodesCount)
+        {
+          spdlog::error("-- Error reading node cache file -- {}: fewer travel times or distances than transferable nodes", nodeCacheFileNamePath);
+          close(fd);
+          return -EBADMSG;
+        }
 
         std::vector<NodeTimeDistance> transferableNodes;
         std::vector<NodeTimeDistance> reverseTransferableNodes;
